@@ -129,13 +129,21 @@ def _single_gen(node):
     return node.generators[0]
 
 
+def _with_extras(s, seq, i, cond, extra):
+    """facts established for an arbitrary index (callee postconditions, assumed-after-obliged preconditions)
+    hold for every index in range"""
+    if not extra:
+        return s
+    rng = z3.And(0 <= i, i < seq.n) if cond is None else z3.And(0 <= i, i < seq.n, cond)
+    return s.assume(FA([i], z3.Implies(rng, z3.And(*extra))))
+
+
 def genexp(eng, node, st, fid):
     gen = _single_gen(node)
 
     def mk(s, seq):
         i, cond, vals, extra = _element(eng, [node.elt], gen, s, fid, seq)
-        if extra:
-            raise Unsupported("comprehension element adds assumptions")
+        s = _with_extras(s, seq, i, cond, extra)
         return [("ok", s, VGen(seq, i, cond, vals[0]))]
     return eng.bind(_source_seq(eng, st, fid, gen), mk)
 
@@ -147,8 +155,7 @@ def listcomp(eng, node, st, fid):
         if seq.known_len is not None and seq.known_len <= 6:
             return _unrolled_list(eng, node, gen, s, fid, seq)
         i, cond, vals, extra = _element(eng, [node.elt], gen, s, fid, seq)
-        if extra:
-            raise Unsupported("comprehension element adds assumptions")
+        s = _with_extras(s, seq, i, cond, extra)
         return gen_to_list(eng, s, VGen(seq, i, cond, vals[0]))
     return eng.bind(_source_seq(eng, st, fid, gen), mk)
 
@@ -241,7 +248,7 @@ def iterable_to_seq(eng, st, v):
         if rec.get("lazy"):
             return [("ok", st, VSeq(z3.IntVal(0), lambda s, i: NONE, known_len=0, tag="empty"))]
         st, order, pos, n = _order_of(st, v, rec)
-        return [("ok", st, VSeq(n, lambda s, i: wrap(z3.Select(order, i), rec["kkind"]), tag="setiter"))]
+        return [("ok", st, VSeq(n, lambda s, i: wrap(z3.Select(order, i), rec["kkind"]), tag="setiter", src=("order", order, pos)))]
     h = eng.hooks.get("iter")
     if h:
         r = h(eng, st, v)
@@ -305,8 +312,7 @@ def setcomp(eng, node, st, fid):
 
     def mk(s, seq):
         i, cond, vals, extra = _element(eng, [node.elt], gen, s, fid, seq)
-        if extra:
-            raise Unsupported("comprehension element adds assumptions")
+        s = _with_extras(s, seq, i, cond, extra)
         return set_of_gen(eng, s, VGen(seq, i, cond, vals[0]))
     return eng.bind(_source_seq(eng, st, fid, gen), mk)
 
@@ -348,8 +354,7 @@ def dictcomp(eng, node, st, fid):
 
     def mk(s, seq):
         i, cond, vals, extra = _element(eng, [node.key, node.value], gen, s, fid, seq)
-        if extra:
-            raise Unsupported("comprehension element adds assumptions")
+        s = _with_extras(s, seq, i, cond, extra)
         kv, vv = vals
         kkind, vkind = B.value_kind(kv), B.value_kind(vv)
         if kkind is None or vkind is None:
